@@ -74,6 +74,7 @@ class Acc:
             self.violations.append({
                 "kind": v["kind"], "msg": v["msg"], "sig": jsonable(v.get("sig", {})), "case": jsonable(case),
                 "prefix": list(prefix), "trace": jsonable(trace) if trace is not None else None, "source": source,
+                "cfg_variant": getattr(self, "cfg_variant", 0),
             })
 
     def dump(self) -> dict:
